@@ -14,6 +14,7 @@ Op == CASE E.op = "Start" -> Start
         [] E.op = "Kill" -> Kill(E.c)
         [] E.op = "Cancel" -> Cancel
         [] E.op = "Crash" -> Crash
+        [] E.op = "Again" -> Again(E.c)
         [] OTHER -> FALSE
 
 TNext ==
